@@ -96,18 +96,37 @@ Proof.
   - destruct (ctodo c) as [| q rest] eqn:T; cbn [map]; [apply proj_set_mst |].
     destruct (cflag c); apply proj_set_mst.
   - destruct (ctodo c) as [| q rest] eqn:T; cbn [map]; [apply proj_set_mst |].
-    destruct (kind_action (kind (base q))); unfold proj; cbn; try reflexivity.
-    + rewrite map_app. reflexivity.
-    + destruct (cflag c) eqn:F; cbn; [rewrite M, T, F; reflexivity | reflexivity].
+    destruct (kind_action (kind (base q))).
+    + unfold proj; cbn. rewrite map_app. reflexivity.
+    + destruct (cflag c) eqn:F; [apply proj_set_mst |].
+      unfold cstuck_solved, stuck_solved, proj. cbn. rewrite F. reflexivity.
+    + reflexivity.
+    + reflexivity.
+Qed.
+
+(* with the `except Exception` handler a raising stuck-path solve is an ordinary main-loop step *)
+Lemma cstep_main_raise_eq : stuck_exception_escapes = false -> forall c, cstep_main_raise c = cstep_main c.
+Proof.
+  intros NE c. unfold cstep_main_raise.
+  destruct (cmst c) eqn:M; try reflexivity.
+  destruct (ctodo c) as [| q rest] eqn:T; try reflexivity.
+  destruct (kind_action (kind (base q))) eqn:A; try reflexivity.
+  destruct (cflag c) eqn:F; [reflexivity |].
+  destruct (is_err (ans (base q))) eqn:E; [| reflexivity].
+  rewrite NE. unfold cstep_main. rewrite M, T, A, F.
+  destruct (ans (base q)); try discriminate E. reflexivity.
 Qed.
 
 Lemma proj_step_main_raise : forall c, proj (cstep_main_raise c) = step_main_raise (proj c).
 Proof.
-  intros c. unfold cstep_main_raise, step_main_raise. cbn [proj mst todo].
+  intros c. unfold cstep_main_raise, step_main_raise. cbn [proj mst todo flag].
   destruct (cmst c) eqn:M; try (rewrite proj_step_main; reflexivity).
   destruct (ctodo c) as [| q rest] eqn:T; cbn [map]; [rewrite proj_step_main; reflexivity |].
   destruct (kind_action (kind (base q))); try (rewrite proj_step_main; reflexivity).
-  destruct (is_err (ans (base q))); [apply proj_set_mst | rewrite proj_step_main; reflexivity].
+  destruct (cflag c) eqn:F; [rewrite proj_step_main; reflexivity |].
+  destruct (is_err (ans (base q))); [| rewrite proj_step_main; reflexivity].
+  destruct stuck_exception_escapes; [apply proj_set_mst |].
+  unfold cstuck_solved, stuck_solved, proj. cbn. rewrite F. reflexivity.
 Qed.
 
 (* ------------------------------------------------------------------ the invariant *)
@@ -148,17 +167,20 @@ Proof.
       * intros b Hb. apply in_app_or in Hb. destruct Hb as [Hb | [<- | []]]; [apply I2; assumption |].
         cbn [jq]. split; [assumption |]. rewrite <- action_submit, A. reflexivity.
       * intros b Hb S. apply in_app_or in Hb. destruct Hb as [Hb | [<- | []]]; [apply I4; assumption | discriminate S].
-    + destruct (cflag c); [apply cinv_set_mst; constructor; assumption |]. constructor; cbn; assumption.
+    + destruct (cflag c); [apply cinv_set_mst; constructor; assumption |]. unfold cstuck_solved. constructor; cbn; assumption.
     + constructor; cbn; assumption.
     + constructor; cbn; assumption.
 Qed.
 
 Lemma cinv_step_main_raise : forall qs cache c, cinv qs cache c -> cinv qs cache (cstep_main_raise c).
 Proof.
-  intros qs cache c I. unfold cstep_main_raise.
+  intros qs cache c I. destruct stuck_exception_escapes eqn:NE;
+    [| rewrite (cstep_main_raise_eq NE); apply cinv_step_main; assumption].
+  unfold cstep_main_raise. rewrite NE.
   destruct (cmst c); try (apply cinv_step_main; assumption).
   destruct (ctodo c) as [| q rest]; [apply cinv_step_main; assumption |].
   destruct (kind_action (kind (base q))); try (apply cinv_step_main; assumption).
+  destruct (cflag c); [apply cinv_step_main; assumption |].
   destruct (is_err (ans (base q))); [apply cinv_set_mst; assumption | apply cinv_step_main; assumption].
 Qed.
 
@@ -327,6 +349,16 @@ Proof.
   rewrite E in R. exact (schedule_failsafe _ _ _ _ R).
 Qed.
 
+(* full strength (the stuck-path solve is exception-safe, Proofs/VerdictProofs.v schedule_full) *)
+Lemma cache_schedule_full : forall cache ee qs sched r,
+  (cache = true -> core_consistent qs) ->
+  cresult (crun cache ee qs sched) = Some r ->
+  r = model_verdict (map base qs) /\ fst r = spec_verdict (map base qs).
+Proof.
+  intros cache ee qs sched r H R. destruct (cache_refines cache ee qs sched H) as (sched' & _ & E).
+  rewrite E in R. exact (schedule_full _ _ _ _ R).
+Qed.
+
 (* without --cache-solver: no hypothesis on the solver's cores at all *)
 Lemma nocache_refines : forall ee qs sched,
   exists sched',
@@ -352,7 +384,8 @@ Proof.
       + destruct (ctodo c); [split; assumption |]. destruct (cflag c); split; assumption.
       + destruct (ctodo c); [split; assumption |].
         destruct (kind_action (kind (base q))); try (split; assumption).
-        destruct (is_err (ans (base q))); [split; assumption |]. destruct (cflag c); split; assumption.
+        destruct (cflag c); [split; assumption |].
+        destruct (is_err (ans (base q))); [destruct stuck_exception_escapes; split; assumption | split; assumption].
     - unfold cstep_start. destruct (cfind j (cjobs c)) as [[[pre b] post] |]; [| split; assumption].
       destruct (jstage b); [| split; assumption]. cbn. rewrite C1.
       unfold gen_check_unsat_cores. cbn. split; [reflexivity | assumption].
@@ -479,8 +512,8 @@ Section SemanticPass.
           unfold cstuckq, succq in *. rewrite <- AT in C2. rewrite <- AN in C3. cbv iota in C2, C3.
           rewrite cnt_app. cbn [cnt]. unfold badjob in *. cbn [jq]. repeat split; lia.
       + (* stuck *)
-        case_eq (cflag c); intros F; [apply sinv_set_mst; [constructor; assumption | discriminate] |].
-        constructor; cbn; try assumption; try discriminate.
+        case_eq (cflag c); intros F; [apply sinv_set_mst; [constructor; assumption | intros _ X; congruence] |].
+        unfold cstuck_solved. constructor; cbn; try assumption; try discriminate.
         intros _. destruct (I5 F) as (C1 & C2 & C3). rewrite T in *. cbn [cnt] in *.
         rewrite (bad_not_submit q) in C1 by (rewrite A; reflexivity).
         unfold cstuckq, succq in *. rewrite <- AT in C2. rewrite <- AN in C3. cbv iota in C2, C3.
@@ -499,10 +532,13 @@ Section SemanticPass.
 
   Lemma sinv_step_main_raise : forall c, sinv c -> sinv (cstep_main_raise c).
   Proof.
-    intros c I. unfold cstep_main_raise.
+    intros c I. destruct stuck_exception_escapes eqn:NE;
+      [| rewrite (cstep_main_raise_eq NE); apply sinv_step_main; assumption].
+    unfold cstep_main_raise. rewrite NE.
     destruct (cmst c); try (apply sinv_step_main; assumption).
     destruct (ctodo c) as [| q rest]; [apply sinv_step_main; assumption |].
     destruct (kind_action (kind (base q))); try (apply sinv_step_main; assumption).
+    destruct (cflag c); [apply sinv_step_main; assumption |].
     destruct (is_err (ans (base q))); [apply sinv_set_mst; [assumption | discriminate] | apply sinv_step_main; assumption].
   Qed.
 
